@@ -2,6 +2,7 @@
 import json
 import os
 import shutil
+import subprocess
 import sys
 import tempfile
 
@@ -29,8 +30,48 @@ class Generated:
         self.fn_ranges = []
 
 
+# T11: compiler expansion of a crate, produced from the current working tree on every run.
+# (repo, crate_dir) -> text; cached for the lifetime of this python process only (one ./check run generates the
+# same unit several times: main run, vacuity probe, canaries).
+_EXPAND_CACHE = {}
+
+
+def expand_crate(repo, crate_dir):
+    """`cargo +nightly rustc --lib --offline -- -Zunpretty=expanded` in <repo>/<crate_dir>; returns stdout.
+
+    CARGO_TARGET_DIR is a fresh temp dir outside /repo and /verif, removed afterwards.  Any failure is UNDECIDED."""
+    key = (os.path.realpath(repo), crate_dir)
+    if key in _EXPAND_CACHE:
+        return _EXPAND_CACHE[key]
+    cwd = os.path.join(repo, crate_dir)
+    if not os.path.isdir(cwd):
+        raise extract.Undecided("expand: crate dir missing: %s" % cwd)
+    tgt = tempfile.mkdtemp(prefix="vf_expand_")
+    try:
+        env = dict(os.environ, CARGO_TARGET_DIR=tgt, CARGO_NET_OFFLINE="true")
+        try:
+            p = subprocess.run(["cargo", "+nightly", "rustc", "--lib", "--offline", "--", "-Zunpretty=expanded"],
+                               cwd=cwd, env=env, capture_output=True, text=True, timeout=900)
+        except (OSError, subprocess.TimeoutExpired) as e:
+            raise extract.Undecided("expand: cargo +nightly rustc failed to run: %s" % e)
+        if p.returncode != 0 or not p.stdout.strip():
+            raise extract.Undecided("expand: rustc -Zunpretty=expanded failed in %s: %s" % (cwd, p.stderr[-300:]))
+        _EXPAND_CACHE[key] = p.stdout
+        return p.stdout
+    finally:
+        shutil.rmtree(tgt, ignore_errors=True)
+
+
 def generate(unit, repo=REPO, pre_sources=None):
     ex = extract.Extractor(repo, unit, UNIT_DIR, SHIM_DIR)
+    exp = unit.get("expand")
+    if exp:
+        # {"crate_dir": "milu", "virtual_file": "@expanded/milu.rs"}: items whose "file" is the virtual file are
+        # extracted from rustc's own macro expansion; reported line numbers refer to that expansion.
+        vfile = exp.get("virtual_file", "@expanded/%s.rs" % exp["crate_dir"])
+        if not (pre_sources and vfile in pre_sources):
+            ex.load_text(vfile, expand_crate(repo, exp["crate_dir"]))
+            ex.transforms.add("T11")
     if pre_sources:
         for rel, txt in pre_sources.items():
             ex.load_text(rel, txt)
